@@ -65,6 +65,11 @@ def loss_lml_timeseries(
             msg += ", or mean to use a different loss?"
             raise TypeError(msg)
 
+        # Remove the filtering distributions from the posterior
+        # (before the std is validated: the expected shape is one std per
+        # time-point, not one per time-point and filtering marginal)
+        posterior = posterior.remove_filtering_distributions()
+
         u = tree.tree_map(np.asarray, u)
         N, *_ = np.shape(tree.tree_leaves(u)[0])
         std = tree.tree_map(np.asarray, std)
@@ -86,9 +91,6 @@ def loss_lml_timeseries(
 
         if not tree.tree_all(shapes_equal):
             raise ValueError(msg)
-
-        # Remove the filtering distributions from the posterior
-        posterior = posterior.remove_filtering_distributions()
 
         def make_model(s):
             return posterior.marginal.to_derivative(tcoeff_index, s)
